@@ -38,6 +38,17 @@ def budget(tier):
 
 
 def _gen(g):
+    if g.chance(8):
+        # targeted shape: the very first acquire() of a lock, cancelled (by a scope or natively) in the cycles around
+        # its checkpoint; then the lock is used normally. With "adapter" the lock was created outside the loop and
+        # binds to the backend in that first call
+        d = g.int(0, 2)
+        tail = [[g.choice(["acq", "rel", "nw"]), g.int(0, 2)] for _ in range(g.int(1, 4))]
+        return {"config": g.choice(["S", "S", "E", "U"]), "fast": g.chance(25),
+                "actors": [[["acq", d], ["rel", g.int(1, 3)]] + tail,
+                           [["cancel", d + g.choice([0, 0, 1]), 0, g.chance(30)], ["acq", g.int(1, 3)], ["rel", g.int(1, 2)]],
+                           [["acq", d + g.int(1, 4)], ["rel", 1]]],
+                "nest": g.choice([0, 0, 1]), "adapter": g.chance(70)}
     n = g.int(2, 5)
     actors = []
     for _a in range(n):
